@@ -335,3 +335,17 @@ package cbreaker
 //@   modifies c.fallback
 //@   ensures rebound: c.fallback == f
 
+
+// ---- construction -----------------------------------------------------------------------------------------------------
+// Options configure periods, side effects, fallback, logging; they are assumed not to touch the state machine, the
+// wrapped handler or the metrics, and not to keep the breaker under construction.
+//@ functype cbreaker.Option
+//@   params c
+//@   modifies c.checkPeriod, c.fallbackDuration, c.recoveryDuration, c.onTripped, c.onStandby, c.fallback, c.log, c.verbose
+//@ func New
+//@   props C05 C12 C18
+//@   modifies external
+//@   ensures wired: result1 == nil ==> result0 != nil && fresh(result0) && fresh(result0.m) && result0.next == next && result0.metrics != nil
+//@   ensures starts_in_standby: result1 == nil ==> result0.state == 0 && result0.rc == nil
+//@   ensures default_periods_without_options: result1 == nil && len(options) == 0 ==> result0.checkPeriod == 100000000 && result0.fallbackDuration == 10000000000 && result0.recoveryDuration == 10000000000 && result0.fallback != nil
+//@   loop 1 invariant cb != nil && fresh(cb) && fresh(cb.m) && cb.next == next && cb.state == 0 && cb.rc == nil && (len(options) == 0 ==> cb.checkPeriod == 100000000 && cb.fallbackDuration == 10000000000 && cb.recoveryDuration == 10000000000 && cb.fallback != nil)
